@@ -1282,6 +1282,9 @@ def rotate(phi, theta, psi, ra, dec):
     (w,) = np.where(b > 1.0)
     if w.size > 0:
         b[w] = 1.0
+    (w,) = np.where(b < -1.0)
+    if w.size > 0:
+        b[w] = -1.0
 
     dec_out = arcsin(b)
 
